@@ -31,9 +31,10 @@ ANCHORS = [
 MIN_NONTRIVIAL = {'quick': 300, 'thorough': 5000}
 MIN_STATS = {'process_calls_checked': 5000}
 ASSUMPTIONS = ['order of lifecycle callbacks inside one operation not judged',
-               'a processor ADDED during a frame may or may not run in it; an '
-               'on_remove that adds a processor of the type being replaced is '
-               'not generated',
+               'a processor ADDED during a frame may or may not run in it; '
+               'for a replacement whose on_remove adds a processor of the '
+               'same type only the final registration (one per type, the '
+               'processor that was being added) is judged',
                'p.world after removal is not judged']
 
 PRIOS = [-3, -1, 0, 0, 1, 1, 2, 3]
@@ -70,7 +71,13 @@ def gen_one(rng, tier, scale=False):
                                   ['add', rng.randrange(ncls)]])
             ops.append(['addp', rng.randrange(ncls), prio, reuse, act])
         elif k < (0.6 if not scale else 0.5):
-            if enabled and not scale and rng.random() < 0.15:
+            if enabled and not scale and rng.random() < 0.12:
+                # replacement whose on_remove adds, in turn, a processor of
+                # the type being replaced (a third instance, or the very
+                # instance that is being added)
+                ops.append(['addp_reentrant', rng.randrange(ncls),
+                            rng.choice(['third', 'incoming'])])
+            elif enabled and not scale and rng.random() < 0.15:
                 # the on_add of the added processor raises; the program
                 # catches the exception and carries on
                 ops.append(['addp_fault', rng.randrange(ncls),
@@ -134,6 +141,10 @@ def run_case(case):
             def on_remove(self, *args):
                 log.append(('remove', self.uid, args,
                             state['world'].dispatch_enabled, None))
+                todo = getattr(self, 'readd', None)
+                if todo is not None:
+                    self.readd = None
+                    state['world'].add_processor(todo)
             ns['on_remove'] = on_remove
         cls = type(f'P{i}', (base,), ns)
         names = [n for k, n in (('a', 'on_add'), ('r', 'on_remove'))
@@ -260,6 +271,39 @@ def run_case(case):
                     fail(at, 'world-not-set', 'added processor does not know '
                          'its world', 'the world', repr(p.world))
                     break
+            elif name == 'addp_reentrant':
+                t = classes[op[1]]
+                if 'r' not in events[op[1]] or not enabled \
+                        or t not in by_type:
+                    continue
+                old = by_type[t]
+                p = t()
+                p.uid = len(instances)
+                p.cls_index = op[1]
+                p.act = None
+                instances.append(p)
+                if op[2] == 'third':
+                    third = t()
+                    third.uid = len(instances)
+                    third.cls_index = op[1]
+                    third.act = None
+                    instances.append(third)
+                    removed_ever.add(third.uid)
+                    old.readd = third
+                else:
+                    old.readd = p
+                readable = p.priority
+                w.add_processor(p)
+                res.stats['reentrant_replacements'] += 1
+                by_type.pop(t)
+                order[:] = [x for x in order if x[2] is not old]
+                removed_ever.add(old.uid)
+                seq += 1
+                order.append((readable, seq, p))
+                order.sort(key=lambda x: (x[0], x[1]))
+                by_type[t] = p
+                removed_ever.discard(p.uid)
+                skip_life = True
             elif name == 'addp_fault':
                 if 'a' not in events[op[1]] or not enabled:
                     continue
